@@ -45,6 +45,9 @@ func (o *SimOS) pre(call, op, path string) error {
 	atomic.AddInt64(&o.Calls, 1)
 	if o.Hook != nil {
 		o.Hook("pre", call, op, path)
+		if o.fenced.Load() {
+			return errFenced // the hook killed the node at this very point
+		}
 	}
 	if o.r.Sched != nil {
 		o.r.Sched.Yield(o.node, "os", call+":"+op)
